@@ -53,6 +53,10 @@ def run(c):
                 if fin["t"] == "none" and n > 6:
                     continue
                 cases.append(dict(kind="expand", monad=m, seed=rng.getrandbits(30), prog=dict(k="all", args=args, fin=fin)))
+    # the ApplicativeN / ChainN builders: every pattern of value / supplier / plain value / plain supplier steps
+    progs = efflib.export_programs(c)
+    for m in ("try", "option"):
+        cases += [dict(kind="expand", monad=m, seed=rng.getrandbits(30), prog=p) for p in progs if p["k"] == "supp"]
     efflib.run_and_judge(c, "C14", cases, "c14-effect")
     c.assumptions += ["Labelled* families need fp.Named element types and are exercised through gombok output (C07); the future LiftA/LiftM "
                       "families are wired in C06"]
